@@ -316,3 +316,95 @@ class SubNotifier(PlainBase):
 
 C09_CHANGE_CLASSES = (Notifier, TypedNotifier, ReqNotifier, DeepTyped, SubNotifier)
 C09_BOUND_CLASSES = (Bound, TypedBound)
+
+
+# ---------------------------------------------------------------------------
+# C03 (schema invariant): zero-field schemas, objects with required members
+# nested several levels deep, and a holder with non-partial typed fields into
+# which such values can be moved. Not part of UNTYPED_CLASSES / TYPED_CLASSES.
+# ---------------------------------------------------------------------------
+
+class Empty(pg.Object):
+  """A class without any symbolic field: every key is undeclared."""
+
+
+class ReqLeaf(pg.Object):
+  y: T.Int()
+  z: T.Int(min_value=0) = 0
+
+
+class ReqMid(pg.Object):
+  leaf: T.Object(ReqLeaf)
+  n: T.Int() = 0
+  opt: T.Object(ReqLeaf).noneable() = None
+  rd: T.Dict([('a', T.Int()), ('b', T.Int(default=2))]).noneable() = None
+
+
+class ReqTop(pg.Object):
+  mid: T.Object(ReqMid)
+  leaf: T.Object(ReqLeaf).noneable() = None
+  e: T.Object(Empty).noneable() = None
+  tag: T.Dict([]) = {}
+
+
+class Holder(pg.Object):
+  """Typed fields (none of them partial) that accept the values above, plain
+  typed dicts/lists and zero-field schemas."""
+  top: T.Object(ReqTop).noneable() = None
+  mid: T.Object(ReqMid).noneable() = None
+  leaf: T.Object(ReqLeaf).noneable() = None
+  mids: T.List(T.Object(ReqMid), max_size=3) = []
+  dm: T.Dict([('mid', T.Object(ReqMid).noneable()),
+              ('leaf', T.Object(ReqLeaf).noneable()),
+              ('tag', T.Dict([]))]) = {}
+  e: T.Object(Empty).noneable() = None
+  tag: T.Dict([]) = {}
+  sd: T.Dict([('x', T.Int(default=0)), ('s', T.Str().noneable())]).noneable() = None
+  sl: T.List(T.Int(min_value=0), max_size=4).noneable() = None
+  anyv: T.Any() = None
+
+
+C03_NESTED_CLASSES = (Empty, ReqLeaf, ReqMid, ReqTop, Holder)
+
+
+# ---------------------------------------------------------------------------
+# C01 (tree integrity): schema-bound containers whose MEMBERS are symbolic
+# nodes (nested typed dicts, lists of Any, Any slots, objects), with required
+# keys and size bounds, so that a call the schema rejects (clear / delete /
+# pop / overwrite / extend ...) happens on a container that has symbolic
+# children. Not part of UNTYPED_CLASSES / TYPED_CLASSES.
+# ---------------------------------------------------------------------------
+
+def holder_cfg_spec():
+  """Typed dict: one required key without default + symbolic-valued keys."""
+  return T.Dict([
+      ('name', T.Str()),                                   # required, no default
+      ('opts', T.Dict([('k', T.Int(default=1)), ('sub', T.Dict(default={})),
+                       ('vs', T.List(T.Any(), default=[]))])),
+      ('elems', T.List(T.Any(), default=[])),
+      ('any', T.Any(default=None)),
+  ])
+
+
+def holder_rows_spec():
+  """Bounded typed list of typed dicts with a required key and Any slots."""
+  return T.List(T.Dict([('id', T.Int()),
+                        ('payload', T.Any(default=None)),
+                        ('tags', T.List(T.Any(), default=[]))]),
+                min_size=1, max_size=4)
+
+
+class Holder(pg.Object):
+  """Typed containers (required keys, bounds) that hold symbolic children."""
+  cfg: holder_cfg_spec()
+  rows: holder_rows_spec()
+  inner: T.Object(Inner) = Inner()
+  free: T.Any() = None
+
+
+class HolderNotifier(Holder):
+  """Same, with an overridden change handler."""
+
+  def _on_change(self, field_updates):
+    _record(self, 'change', field_updates)
+    super()._on_change(field_updates)
